@@ -14,3 +14,5 @@ import Norad.Props.C08
 #print axioms C08.refused_save_leaves_fs_fontinfo
 #print axioms C08.valid_info_is_serialisable
 #print axioms C08.refused_save_leaves_fs_groups_spec
+#print axioms C08.source_validators_precede_wipe
+#print axioms C08.source_save_order_matches_plan
